@@ -503,9 +503,11 @@ def build_runner(prop):
     stamp_src = hashlib.sha256()
     stamp_src.update(src.encode())
     stamp_src.update(open(os.path.join(VERIF, "runner", "driver.ml"), "rb").read())
-    for f in sorted(glob.glob(os.path.join(COQ, "*", "*.vo"))):
+    # stamp = content of the sources the extraction depends on (not the mtimes of every .vo: another property's rebuild
+    # must not force a re-extraction of this one)
+    for f in coq_closure(["Corr/%s.v" % prop]):
         stamp_src.update(f.encode())
-        stamp_src.update(str(os.path.getmtime(f)).encode())
+        stamp_src.update(open(os.path.join(COQ, f), "rb").read())
     stamp = stamp_src.hexdigest()
     sp = os.path.join(d, "stamp")
     binp = os.path.join(d, "runner")
